@@ -21,7 +21,8 @@ theorem fail_not_success (st : DecSt) (c : ErrClass) : ¬ (fail st c).success :=
   simp [fail, Outcome.success]
 
 theorem headerCheck_ok (st st' : DecSt) (sb tmp : Bytes) (h : headerCheck st sb tmp = .ok st') :
-    st'.hdr.dataSize = leNat ((tmp.drop 3).take 4) ∧ st'.hdr.size = st.hdr.size := by
+    st'.hdr.dataSize = leNat ((tmp.drop 3).take 4) ∧ st'.hdr.size = st.hdr.size ∧
+    st'.crc = Crc.update (Crc.update st.crc sb) tmp := by
   unfold headerCheck at h
   simp only at h
   split at h
@@ -29,15 +30,19 @@ theorem headerCheck_ok (st st' : DecSt) (sb tmp : Bytes) (h : headerCheck st sb 
   · split at h
     · cases h
     · split at h
-      · cases h; exact ⟨rfl, rfl⟩
+      · cases h; exact ⟨rfl, rfl, rfl⟩
       · split at h
-        · cases h; exact ⟨rfl, rfl⟩
+        · cases h; exact ⟨rfl, rfl, rfl⟩
         · split at h
           · cases h
-          · cases h; exact ⟨rfl, rfl⟩
+          · cases h; exact ⟨rfl, rfl, rfl⟩
 
 end Fit
 namespace Fit
+
+theorem FitCrcAux.update_append' (c : BitVec 16) (xs ys : List UInt8) :
+    Crc.update c (xs ++ ys) = Crc.update (Crc.update c xs) ys := by
+  simp [Crc.update, List.foldl_append]
 
 theorem headD_take_one (l : Bytes) (h : 1 ≤ l.length) : (l.take 1).headD 0 = l.headD 0 := by
   cases l with
@@ -54,6 +59,8 @@ theorem decodeHeader_success (st : DecSt) (cont : DecSt → HP) (s : SpecSt)
     (h : (runSpec (decodeHeader st cont) s).1.success) :
     ∃ st' size, (size = 12 ∨ size = 14) ∧ size ≤ s.rest.length ∧ size = (s.rest.headD 0).toNat ∧
       st'.hdr.dataSize = leNat ((s.rest.drop 4).take 4) ∧
+      st'.crc = Crc.update st.crc (s.rest.take size) ∧
+      headerCheck { st with hdr := { st.hdr with size := size } } (s.rest.take 1) ((s.rest.drop 1).take (size - 1)) = .ok st' ∧
       runSpec (decodeHeader st cont) s =
         runSpec (cont st') { s with rest := s.rest.drop size, taken := s.taken + size } := by
   unfold decodeHeader at h ⊢
@@ -83,7 +90,12 @@ theorem decodeHeader_success (st : DecSt) (cont : DecSt → HP) (s : SpecSt)
           have hk := (headerCheck_ok _ _ _ _ hc).1
           rw [drop3_take4 _ _ (by omega)] at hk
           simp only [List.length_drop] at h2
-          refine ⟨st', size, hsz2, by omega, rfl, hk, ?_⟩
+          have hcrc := (headerCheck_ok _ _ _ _ hc).2.2
+          have htk : s.rest.take size = s.rest.take 1 ++ (s.rest.drop 1).take (size - 1) := by
+            have : size = 1 + (size - 1) := by omega
+            rw [this, List.take_add]
+            simp
+          refine ⟨st', size, hsz2, by omega, rfl, hk, by rw [hcrc, htk, FitCrcAux.update_append'], hc, ?_⟩
           simp only [List.drop_drop]
           have e1 : 1 + (size - 1) = size := by omega
           have e2 : s.taken + 1 + (size - 1) = s.taken + size := by omega
@@ -104,7 +116,8 @@ theorem toOutcome_not_success (e : ErrExit) : ¬ e.toOutcome.success := by
 
 theorem checkCRC_success (st : DecSt) (s : SpecSt) (h : (runSpecT (checkCRC st) s).1.success) :
     (runSpecT (checkCRC st) s).2.taken = s.taken + 2 ∧ 2 ≤ s.rest.length ∧
-    (runSpecT (checkCRC st) s).2.frameEnd = s.frameEnd := by
+    (runSpecT (checkCRC st) s).2.frameEnd = s.frameEnd ∧
+    Crc.update st.crc (s.rest.take 2) = 0#16 := by
   have h2 : 2 ≤ s.rest.length := by
     unfold checkCRC at h
     simp only [runSpecT] at h
@@ -112,9 +125,36 @@ theorem checkCRC_success (st : DecSt) (s : SpecSt) (h : (runSpecT (checkCRC st) 
     · exact h2
     · simp only [h2, ↓reduceIte] at h
       exact absurd h (fail_not_success _ _)
-  refine ⟨?_, h2, (runSpecT_conserve (checkCRC st) s).2.2.1⟩
-  unfold checkCRC
-  simp only [runSpecT, h2, ↓reduceIte]
+  refine ⟨?_, h2, (runSpecT_conserve (checkCRC st) s).2.2.1, ?_⟩
+  · unfold checkCRC
+    simp only [runSpecT, h2, ↓reduceIte]
+  · unfold checkCRC at h
+    simp only [runSpecT, h2, ↓reduceIte] at h
+    by_cases hz : Crc.update st.crc (s.rest.take 2) = 0#16
+    · exact hz
+    · simp only [hz, ↓reduceIte] at h
+      exact absurd h (fail_not_success _ _)
+
+/-- the header phase when the header is accepted -/
+theorem decodeHeader_run_ok (st st' : DecSt) (cont : DecSt → HP) (s : SpecSt) (size : Nat)
+    (hsz : size = 12 ∨ size = 14) (hlen : size ≤ s.rest.length) (hsize : size = (s.rest.headD 0).toNat)
+    (hc : headerCheck { st with hdr := { st.hdr with size := size } } (s.rest.take 1) ((s.rest.drop 1).take (size - 1)) = .ok st') :
+    runSpec (decodeHeader st cont) s =
+      runSpec (cont st') { s with rest := s.rest.drop size, taken := s.taken + size } := by
+  unfold decodeHeader
+  simp only [runSpec]
+  have h1 : 1 ≤ s.rest.length := by omega
+  simp only [h1, ↓reduceIte]
+  rw [headD_take_one _ h1, ← hsize]
+  have hs : ¬ (size ≠ headerSizeCRC ∧ size ≠ headerSizeNoCRC) := by
+    simp only [headerSizeCRC, headerSizeNoCRC]; omega
+  rw [if_neg hs]
+  simp only [runSpec]
+  have h2 : size - 1 ≤ (s.rest.drop 1).length := by simp only [List.length_drop]; omega
+  simp only [h2, ↓reduceIte, hc, List.drop_drop]
+  have e1 : 1 + (size - 1) = size := by omega
+  have e2 : s.taken + 1 + (size - 1) = s.taken + size := by omega
+  rw [e1, e2]
 
 /-- If the decoder program (`Decode` = mode `full`, `CheckIntegrity` = mode `crcOnly`) succeeds from
     stream state `s`, it has consumed exactly the frame the stream's first bytes declare (header
@@ -125,7 +165,7 @@ theorem prog_consumes_exactly (P : Profile) (m : Mode) (hm : m = .full ∨ m = .
     (runSpec (decodeProg P m g) s).2.taken = s.taken + frameLen s.rest ∧ 14 ≤ frameLen s.rest ∧
     (runSpec (decodeProg P m g) s).2.frameEnd + 2 = s.taken + frameLen s.rest := by
   unfold decodeProg at hs ⊢
-  obtain ⟨st', size, hsz, hlen, hsize, hds, heq⟩ := decodeHeader_success _ _ _ hs
+  obtain ⟨st', size, hsz, hlen, hsize, hds, _, _, heq⟩ := decodeHeader_success _ _ _ hs
   rw [heq] at hs ⊢
   simp only at hs ⊢
   unfold frameLen
@@ -146,7 +186,7 @@ theorem prog_consumes_exactly (P : Profile) (m : Mode) (hm : m = .full ∨ m = .
       simp only at hs hd ⊢
       by_cases hn : n = st'.hdr.dataSize
       · simp only [hn, ↓reduceIte] at hs ⊢
-        obtain ⟨h1, _, h2⟩ := checkCRC_success x s' hs
+        obtain ⟨h1, _, h2, _⟩ := checkCRC_success x s' hs
         rw [h1, h2]
         omega
       · simp only [hn, ↓reduceIte] at hs
@@ -155,7 +195,7 @@ theorem prog_consumes_exactly (P : Profile) (m : Mode) (hm : m = .full ∨ m = .
     simp only [runSpec] at hs ⊢
     by_cases hl : st'.hdr.dataSize ≤ (s.rest.drop size).length
     · simp only [hl, ↓reduceIte] at hs ⊢
-      obtain ⟨h1, _, h2⟩ := checkCRC_success _ _ hs
+      obtain ⟨h1, _, h2, _⟩ := checkCRC_success _ _ hs
       rw [h1, h2]
       simp only
       omega
